@@ -584,6 +584,8 @@ class World(object):
                 body = 'm%d' % r.idx + 'x' * 1000
             elif pkind == 'huge':
                 body = 'm%d' % r.idx + 'y' * 20000
+            elif pkind == 'rl128':      # remaining length of exactly 128 bytes: the first value needing two length bytes
+                body = ('m%d' % r.idx).ljust(128 - 2 - len(topic) - (2 if qos else 0), 'z')
             else:
                 body = PAYLOADS[pkind].decode('latin-1')
             if payload_type == 'bytearray':
